@@ -524,7 +524,9 @@ impl TypeChecker {
                     .scope_graph
                     .wrap(scope, ScopeType::WhileBody(idx));
 
-                diverges |= self.block(body_scope, ctx, b)?;
+                // The body may run zero times, so a diverging body does not
+                // make the loop diverge.
+                let _ = self.block(body_scope, ctx, b)?;
                 self.unify(&ctx.expected_type, &Type::unit(), id, None)?;
 
                 Ok(diverges)
@@ -546,7 +548,8 @@ impl TypeChecker {
 
                 self.insert_var(body_scope, name.clone(), element_ty)?;
 
-                diverges |= self.block(body_scope, ctx, b)?;
+                // The body may run zero times (see `While`).
+                let _ = self.block(body_scope, ctx, b)?;
                 self.unify(&ctx.expected_type, &Type::unit(), id, None)?;
 
                 Ok(diverges)
